@@ -32,3 +32,5 @@
 (declare-fun tcnt (Str Int) Int)
 ; csum(k): total number of items the first k inner steps of both() produced (defined by contract axioms)
 (declare-fun csum (Int) Int)
+; tMark(t, label): the element a traveler has marked under a label (0 when none)
+(declare-fun tMark (Any Str) Int)
